@@ -90,13 +90,20 @@ func (E *Engine) solveAll(cfg runCfg) []*OblResult {
 					fmu.Unlock()
 				}
 			}()
+			tmo := cfg.TimeoutS
+			if E.knownFailing(j.o.Name) {
+				tmo = 2 // a recorded finding: only confirm quickly that it still does not discharge
+			}
 			j.q = E.buildQuery(j.o.Reading, j.o.Hyps, j.o.Goal)
 			if d := os.Getenv("GVC_DUMPALL"); d != "" {
 				os.MkdirAll(d, 0o755)
 				writeFile(filepath.Join(d, sanitize(j.o.Name)+fmt.Sprintf("_%p.smt2", j)), j.q)
 			}
-			j.res = Solve(j.q, cfg.TimeoutS, cfg.Seed, j.o.Z3Ext || strings.Contains(j.q, "(_ map "), false)
+			j.res = Solve(j.q, tmo, cfg.Seed, j.o.Z3Ext || strings.Contains(j.q, "(_ map "), false)
 			if j.res.Status == "unsat" {
+				return
+			}
+			if tmo != cfg.TimeoutS {
 				return
 			}
 			// a U-obligation that fails is retried in E before it is reported (U abstracts E)
